@@ -9,13 +9,11 @@ from .astu import fold_module_tables
 from .core import AnalysisError
 from .dims import V, TOP, Interp, num, units_ns, constants_ns, Namespace
 
-_CACHE = {}
-
 
 def module_env(repo, rel) -> Dict[str, V]:
-    key = (id(repo), rel)
-    if key in _CACHE:
-        return _CACHE[key]
+    cache = repo.__dict__.setdefault("_dimrun_env", {})   # per Repo object (an id()-keyed global would be reused by a later Repo at the same address)
+    if rel in cache:
+        return cache[rel]
     m = repo.mod(rel)
     env: Dict[str, V] = {}
     for k, v in fold_module_tables(m.tree).items():
@@ -52,7 +50,7 @@ def module_env(repo, rel) -> Dict[str, V]:
             env[name] = V("be", name="numpy")
         else:
             env.setdefault(name, V("imported", name="%s:%s" % (modname, attr)))
-    _CACHE[key] = env
+    cache[rel] = env
     return env
 
 
